@@ -98,6 +98,13 @@ pub enum Body {
     /// role-assignment module: set the owner rule to "require signature of party `to`"
     SetOwnerRole { res: u8, to: u8 },
     LockOwnerRole { res: u8 },
+    /// calls (component, method) pairs of the pre-published royalties package in one transaction:
+    /// several package and component royalty recipients at once
+    CallRoyalty { calls: Vec<(u8, u8)> },
+    /// kind 0 free, 1 XRD, 2 USD
+    SetRoyalty { comp: u8, method: u8, kind: u8, amount: String },
+    LockRoyalty { comp: u8, method: u8 },
+    ClaimRoyalty { comp: u8 },
     /// consensus driver: next_round(current + 1 + skipped) at clock + dt_ms
     Round { dt_ms: i64, skipped: u8 },
     /// F8
@@ -135,6 +142,10 @@ impl Body {
             Body::LockMetadata { .. } => "LockMetadata",
             Body::SetOwnerRole { .. } => "SetOwnerRole",
             Body::LockOwnerRole { .. } => "LockOwnerRole",
+            Body::CallRoyalty { .. } => "CallRoyalty",
+            Body::SetRoyalty { .. } => "SetRoyalty",
+            Body::LockRoyalty { .. } => "LockRoyalty",
+            Body::ClaimRoyalty { .. } => "ClaimRoyalty",
             Body::Round { .. } => "Round",
             Body::Restart => "Restart",
         }
@@ -538,6 +549,41 @@ pub fn build(step: &LStep, view: &View, node: &Node) -> Built {
             bb = if *drop_first_first { bb.drop_proof("p1").drop_proof("p2") } else { bb.drop_proof("p2").drop_proof("p1") };
             bb.try_deposit_entire_worktop_or_abort(acct, None)
         }
+        Body::CallRoyalty { calls } => {
+            let comps = &base_state().royalty_components;
+            if comps.is_empty() || calls.is_empty() {
+                return Built::Skip;
+            }
+            let mut bb = b;
+            for (c, m) in calls {
+                bb = bb.call_method(comps[*c as usize % comps.len()], ROYALTY_METHODS[*m as usize % 3], manifest_args!());
+            }
+            bb
+        }
+        Body::SetRoyalty { comp, method, kind, amount } => {
+            let comps = &base_state().royalty_components;
+            let (false, Some(a)) = (comps.is_empty(), dec(amount)) else { return Built::Skip };
+            let ra = match kind % 3 {
+                0 => RoyaltyAmount::Free,
+                1 => RoyaltyAmount::Xrd(a),
+                _ => RoyaltyAmount::Usd(a),
+            };
+            b.set_component_royalty(comps[*comp as usize % comps.len()], ROYALTY_METHODS[*method as usize % 3], ra)
+        }
+        Body::LockRoyalty { comp, method } => {
+            let comps = &base_state().royalty_components;
+            if comps.is_empty() {
+                return Built::Skip;
+            }
+            b.lock_component_royalty(comps[*comp as usize % comps.len()], ROYALTY_METHODS[*method as usize % 3])
+        }
+        Body::ClaimRoyalty { comp } => {
+            let comps = &base_state().royalty_components;
+            if comps.is_empty() {
+                return Built::Skip;
+            }
+            b.claim_component_royalties(comps[*comp as usize % comps.len()]).try_deposit_entire_worktop_or_abort(acct, None)
+        }
         Body::FProofs { res, p1, p2, amount } => {
             let (Some(r), Some(x1), Some(x2), Some(a)) = (fres(res), dec(p1), dec(p2), dec(amount)) else { return Built::Skip };
             b.create_proof_from_account_of_amount(acct, r.addr, x1)
@@ -733,7 +779,12 @@ pub struct Weights {
     /// C06: most fees are locked on the dedicated payer
     #[serde(default)]
     pub payer_fees: bool,
+    /// calls into / administration of the pre-published royalties package
+    #[serde(default)]
+    pub royalties: u32,
 }
+
+pub const ROYALTY_METHODS: [&str; 3] = ["method_with_no_package_royalty", "method_with_xrd_package_royalty", "method_with_usd_package_royalty"];
 
 fn amount(rng: &mut Rng, divisibility: u8) -> String {
     // boundary-heavy amounts, respecting divisibility most of the time
@@ -808,6 +859,7 @@ pub fn gen_step(rng: &mut Rng, view: &View, node: &Node, w: &Weights, fault_perm
         (w.failures, 5),
         (w.metadata, 6),
         (w.restarts, 7),
+        (w.royalties, 8),
     ];
     let class = *rng.pick_weighted(&table);
     let nn = view.nres.len().max(1) as u64;
@@ -974,6 +1026,26 @@ pub fn gen_step(rng: &mut Rng, view: &View, node: &Node, w: &Weights, fault_perm
                 _ => Body::LockOwnerRole { res: r },
             }
         }
+        8 => match rng.below(10) {
+            0..=5 => {
+                let k = rng.range(1, 6) as usize;
+                Body::CallRoyalty { calls: (0..k).map(|_| (rng.below(3) as u8, rng.below(3) as u8)).collect() }
+            }
+            6..=7 => Body::SetRoyalty {
+                comp: rng.below(3) as u8,
+                method: rng.below(3) as u8,
+                kind: rng.below(3) as u8,
+                amount: rng.pick(&["0", "0.000000000000000001", "0.05", "1", "17", "0.333333333333333333", "166"]).to_string(),
+            },
+            8 => Body::ClaimRoyalty { comp: rng.below(3) as u8 },
+            _ => {
+                if rng.chance(1, 5) {
+                    Body::LockRoyalty { comp: rng.below(3) as u8, method: rng.below(3) as u8 }
+                } else {
+                    Body::ClaimRoyalty { comp: rng.below(3) as u8 }
+                }
+            }
+        },
         _ => Body::Restart,
     };
     let fee = if w.payer_fees && rng.chance(4, 5) {
